@@ -44,7 +44,7 @@ def default_cfg(main: bytes, handler: bytes, imr: int = 0, timer=(False, 0, 0), 
             "kb_press": kb_press, "kol": kol}
 
 
-OBS_MEM = [(STACK - 48, 48), (0xB8100, 8), (0xB8200, 8), (0x4FFF8, 8), (0x57FF8, 8)]
+OBS_MEM = [(STACK - 48, 48), (0xB8100, 8), (0xB8200, 8), (0x4FFF8, 8), (0x57FF8, 8), (0xC0C00, 2), (0x01000, 2)]
 
 
 # ---- Python ------------------------------------------------------------------------------------
